@@ -625,6 +625,20 @@ func c11Same(a, b c11Out) bool {
 	return a.R == "ok" && b.R == "ok" && a.S == b.S
 }
 
+// c11DivergeFinding classifies a failed termination clause: known finding D29 covers exactly the
+// tables with a value that is not delimiter-balanced (such values can glue into ever-new
+// placeholders; proved divergent in Lean: Ytk.C11.resolve_diverges_counterexample). For tables whose
+// values are all balanced termination is a theorem (resolve_terminates_balanced_partial), so a
+// budget overrun there is an unlisted violation.
+func c11DivergeFinding(d [3]string, tbl map[string]string) string {
+	for _, v := range tbl {
+		if !c11Balanced(c11Lex(d, v)) {
+			return "D29-unbalanced-values-diverge"
+		}
+	}
+	return ""
+}
+
 func c11EvalBatch(c *Ctx, b c11Batch) {
 	tbl := c11TblMap(b.Tbl)
 	n := len(b.In)
@@ -662,7 +676,7 @@ func c11EvalBatch(c *Ctx, b c11Batch) {
 			c.Dist(b.Src + ":has-lone-char-of-multichar-delimiter")
 		}
 		det := func(extra any) any { return map[string]any{"in": s, "impl": r, "more": extra} }
-		c.Direct("terminates(step-budget)", r.R != "budget", det(nil))
+		c.DirectF("terminates(step-budget)", r.R != "budget", det(nil), c11DivergeFinding(b.D, tbl))
 		c.Direct("no-panic-other-than-circular-reference", r.R != "panic", det(nil))
 		// Resolve(s) == s when s has no prefix
 		if !strings.Contains(s, b.D[0]) {
@@ -709,6 +723,9 @@ func c11Wire(r c11Out) any {
 		return map[string]any{"r": "ok", "s": r.S}
 	case "cycle":
 		return map[string]any{"r": "cycle", "o": r.O}
+	case "budget":
+		// the implementation ran into the step budget; the model reports running out of fuel
+		return map[string]any{"r": "fuel"}
 	}
 	return map[string]any{"r": r.R}
 }
@@ -760,7 +777,7 @@ func c11EvalConcat(c *Ctx, p c11Concat) {
 	}
 	det := map[string]any{"Resolve(s1)": r1, "Resolve(s2)": r2, "Resolve(s1+s2)": r12}
 	for _, r := range []c11Out{r1, r2, r12} {
-		c.Direct("terminates(step-budget)", r.R != "budget", det)
+		c.DirectF("terminates(step-budget)", r.R != "budget", det, c11DivergeFinding(p.D, tbl))
 		c.Direct("no-panic-other-than-circular-reference", r.R != "panic", det)
 	}
 	var want c11Out
